@@ -39,6 +39,10 @@ func (g *Generator) generateSpecificEnum(enumType string, enumValues []enum) []j
 	cases := make([]jen.Code, len(enumValues))
 	for i, id := range enumValues {
 		name := goify(id.Name, true)
+		if name == typeID {
+			// value named exactly as its type (`null = Null`): the constant can't have the name of the type
+			name = goify(id.Name+"Obj", true)
+		}
 
 		opc[i] = jen.Id(name).Id(typeID).Op("=").Id(fmt.Sprintf("%#v", id.CRC))
 		cases[i] = jen.Case(jen.Id(typeID).Call(jen.Id(fmt.Sprintf("%#v", id.CRC)))).Block(jen.Return(jen.Lit(id.Name)))
